@@ -95,7 +95,22 @@ func newH() *H {
 func HarnessReverseRouting() {
 	h := newH()
 	h.useAliased = verif.Bool("aliased")
-	srv := jsonrpc.NewServer(jsonrpc.WithReverseClient[RevProxy]("rev"))
+	// a method-name formatter shared by both sides; server options are independent of one
+	// another, so their order does not matter
+	name := jsonrpc.DefaultMethodNameFormatter
+	sopts := []jsonrpc.ServerOption{jsonrpc.WithReverseClient[RevProxy]("rev")}
+	var copts []jsonrpc.Option
+	switch verif.Choice("formatter", 3) {
+	case 1:
+		name = func(ns, m string) string { return ns + "_" + m }
+		sopts = append(sopts, jsonrpc.WithServerMethodNameFormatter(name))
+		copts = append(copts, jsonrpc.WithMethodNameFormatter(name))
+	case 2:
+		name = func(ns, m string) string { return ns + "_" + m }
+		sopts = append([]jsonrpc.ServerOption{jsonrpc.WithServerMethodNameFormatter(name)}, sopts...)
+		copts = append(copts, jsonrpc.WithMethodNameFormatter(name))
+	}
+	srv := jsonrpc.NewServer(sopts...)
 	srv.Register("H", h)
 	url, stop := verif.ServeWS(srv)
 	ids := [2]int64{verif.Int("id0"), verif.Int("id1")}
@@ -107,7 +122,12 @@ func HarnessReverseRouting() {
 		impls[i] = &revImpl{id: ids[i]}
 		var err error
 		closers[i], err = jsonrpc.NewMergeClient(context.Background(), url, "H", []interface{}{&cs[i]}, nil,
-			jsonrpc.WithClientHandler("rev", impls[i]), jsonrpc.WithClientHandlerAlias("rev.Alias", "rev.Whoami"))
+			// the client's handler lives in namespace "cli" (client-side handlers are always named with
+			// the default formatter); it is reachable for the server only through aliases spelled
+			// the way the server names its reverse calls
+			append(copts, jsonrpc.WithClientHandler("cli", impls[i]),
+				jsonrpc.WithClientHandlerAlias(name("rev", "Whoami"), "cli.Whoami"),
+				jsonrpc.WithClientHandlerAlias("rev.Alias", "cli.Whoami"))...)
 		verif.Assert(err == nil, "client-created")
 	}
 	salt := verif.Int("salt")
